@@ -13,13 +13,22 @@ def main():
     a = ap.parse_args()
     from . import boot  # noqa: F401  (bootstraps jade from /repo, installs interception)
     from . import checks
+    from . import scen
+
+    scen.new_run_base()
 
     if a.prop == "setup":
-        sys.exit(checks.setup())
+        code = checks.setup()
+        scen.cleanup_run_base()
+        sys.exit(code)
     if a.prop == "selftest":
-        sys.exit(checks.selftest())
+        code = checks.selftest()
+        scen.cleanup_run_base()
+        sys.exit(code)
     if a.replay:
-        sys.exit(checks.replay(a.prop, a.replay))
+        code = checks.replay(a.prop, a.replay)
+        scen.cleanup_run_base()
+        sys.exit(code)
     fn = checks.CHECKS.get(a.prop)
     if fn is None:
         print(f"unknown property {a.prop}")
@@ -33,6 +42,7 @@ def main():
         print("HARNESS-ERROR " + traceback.format_exc())
         code = 2
     sys.stdout.flush()
+    scen.cleanup_run_base()
     os._exit(code)
 
 
